@@ -97,7 +97,7 @@ func universesFor(ctx *vrun.Ctx, mining bool) []*Universe {
 	if !mining {
 		us = append(us, EvictionBoundary()) // slowest TLC run first
 	}
-	want := map[string]bool{"rbf": true, "orphans": true, "reorg": true, "reorgsmall": true, "locktime": true, "locknonstd": true, "rbfwit": true}
+	want := map[string]bool{"rbf": true, "orphans": true, "reorg": true, "reorgsmall": true, "locktime": true, "locknonstd": true, "rbfwit": true, "blockconflict": true}
 	if mining {
 		want = map[string]bool{"reorg": true, "mining": true, "sigops": true, "retarget": true, "locknonstd": true, "halving": true}
 	}
